@@ -80,7 +80,7 @@ def run(tier="quick", seed=0):
     pr = PropertyRun("C06", tier, seed)
     thorough = tier == "thorough"
     pr.model_check("MCCherenkov", "MCCherenkovDeep.cfg" if thorough else "MCCherenkov.cfg", workers=8 if thorough else 2, heap="3g", timeout=3000)
-    ev, corners, faces = design(2048 if thorough else 64, seed + 1)
+    ev, corners, faces = design(6144 if thorough else 64, seed + 1)
     allev = corners + faces + ev
     rng = np.random.default_rng(seed)
     jobs = [{"events": allev[i::14]} for i in range(14)]
